@@ -43,7 +43,8 @@ func TestBoundedC11RoundTrip(t *testing.T) {
 	}
 	keys := []string{"a", "a.b", "é", "k y"}
 	ints := []int64{0, 1, -1, 42, math.MaxInt64, math.MinInt64}
-	floats := []float64{0, 1.5, -0.25, 1e21, 1e-7}
+	// (incl. operands that need all 17 significant digits and values beyond the float32 range)
+	floats := []float64{0, 1.5, -0.25, 1e21, 1e-7, 3.141592653589793, 0.30000000000000004, 1e300, -1e-300, 16777217}
 
 	var conds []struct {
 		desc string
@@ -158,6 +159,14 @@ func TestBoundedC11RoundTrip(t *testing.T) {
 		}
 	}
 
+	// witness records holding exactly the float operands (a query must keep selecting them after the round trip)
+	for _, fv := range floats {
+		for _, obj := range []map[string]interface{}{{"a": fv, "é": fv, "k y": fv}, {"a": map[string]interface{}{"b": fv}}} {
+			data, _ := json.Marshal(obj)
+			s := string(data)
+			accs = append(accs, accessor.NewJSONAccessor(&s))
+		}
+	}
 	cases, fails, skipped := 0, 0, 0
 	seen := map[string]bool{}
 	fail := func(in string) {
